@@ -215,6 +215,40 @@ def place_var(pl):
     return ("v", l, proj)
 
 
+_GETTERS = {}
+
+
+def getter_projection(prog, crate, callee):
+    """(by_ref, projection) when `callee` is a one-parameter local function whose body only returns a copy of a field path of
+    its parameter; else None"""
+    key = (crate, callee)
+    if key in _GETTERS:
+        return _GETTERS[key]
+    res = None
+    f = prog.get(crate, callee)
+    if f is not None and f.argc == 1 and len(f.blocks) <= 3 and not any("call" in b.term for b in f.blocks if not b.cleanup):
+        srcs = []
+        for b in f.blocks:
+            if b.cleanup:
+                continue
+            for s in b.stmts:
+                if "a" in s and mk_place(s["a"]) == (0, ()):
+                    u = s["rv"].get("use") or {}
+                    pj = u.get("cp") or u.get("mv")
+                    srcs.append(mk_place(pj) if pj is not None else None)
+                elif "a" in s:
+                    srcs.append(None)
+        if len(srcs) == 1 and srcs[0] is not None and srcs[0][0] == 1 and all(e[0] in ("deref", "f") for e in srcs[0][1]):
+            proj = srcs[0][1]
+            by_ref = f.locals[1]["ty"].startswith("&")
+            if by_ref and proj and proj[0] == ("deref",):
+                res = (True, proj[1:])
+            elif not by_ref:
+                res = (False, proj)
+    _GETTERS[key] = res
+    return res
+
+
 def discr_var(pl):
     """variable holding the variant index of an enum place"""
     l, proj = pl
@@ -240,7 +274,7 @@ def is_mem(v):
 
 
 class NumAnalysis:
-    def __init__(self, fn, prog=None, hyps=None, entry_hook=None, max_disj=MAX_DISJ, pure_calls=(), partition_discr=False, ret_summary=None):
+    def __init__(self, fn, prog=None, hyps=None, entry_hook=None, max_disj=MAX_DISJ, pure_calls=(), partition_discr=False, ret_summary=None, local_inv=None):
         self.fn = fn
         self.prog = prog
         self.hyps = hyps or []
@@ -248,6 +282,7 @@ class NumAnalysis:
         # partition_discr: start from one entry state per combination of the variants of (at most 3) Option/Result/enum
         # places reached from parameters whose discriminant the body tests - makes `usize::from(x.is_some())` exact per path
         self.partition_discr = partition_discr
+        self.local_inv = local_inv  # optional callable(na, st, local, type): type invariants of a freshly defined local (call results)
         self.ret_summary = ret_summary  # optional callable(callee name) -> (lo, hi) of an integer return value, or None
         self.max_disj = max_disj
         self.pure_calls = tuple(pure_calls)
@@ -255,6 +290,17 @@ class NumAnalysis:
         self.entry = {}
         self.visits = {}
         self._run()
+
+    def variant_index(self, adt, variant):
+        if adt in ("std::option::Option", "core::option::Option"):
+            return {"None": 0, "Some": 1}.get(variant)
+        if adt in ("std::result::Result", "core::result::Result"):
+            return {"Ok": 0, "Err": 1}.get(variant)
+        if self.prog is not None and adt:
+            vs = self.prog.enum_variants(self.fn.crate, adt)
+            if vs and variant in vs:
+                return vs.index(variant)
+        return None
 
     # ------------------------------------------------------------------ types
     def place_ty(self, pj):
@@ -597,6 +643,11 @@ class NumAnalysis:
         # aggregates of tracked components
         if "agg" in rv and rv["agg"] in ("tuple", "adt"):
             self.kill_tree(st, dpl[0], dpl[1])
+            if rv["agg"] == "adt" and rv.get("variant") is not None:
+                vi = self.variant_index(rv.get("adt"), rv["variant"])
+                dv = discr_var(dpl)
+                if vi is not None and dv is not None:
+                    st.z.set_interval(dv, vi, vi)
             names = rv.get("fnames") if rv["agg"] == "adt" else [str(i) for i in range(len(rv["fields"]))]
             if names and len(names) == len(rv["fields"]):
                 for name, fo in zip(names, rv["fields"]):
@@ -757,9 +808,21 @@ class NumAnalysis:
             r = int_range(self.op_ty(ops[0]))
             ok = r is not None and a["lo"] > r[0]
         elif kind in ("DivisionByZero", "RemainderByZero"):
-            a = self.ev_operand(st, ops[0])
-            ok = a["lo"] > 0 or a["hi"] < 0
-            detail = "divisor %s ≠ 0" % fmt_itv(a)
+            # the asserted condition is `!(divisor == 0)`; ops[0] is the *dividend* (only used in the panic message)
+            pj = t["assert"].get("cp") or t["assert"].get("mv")
+            var = place_var(mk_place(pj)) if pj is not None else None
+            if var in st.bools:
+                op, a, bb = st.bools[var]
+                if not t["expected"]:
+                    op = NEG[op]
+                ok = self.entails_cmp(st, op, a, bb)
+
+                def sh(x):
+                    return str(x[1]) if x[0] == "c" else "[%s,%s]" % (st.z.lo(x), st.z.hi(x))
+                detail = "divisor: %s %s %s must hold" % (sh(a), op, sh(bb))
+            else:
+                ok = False
+                detail = "divisor not tracked"
         self.oblige(b, "assert", "assert:" + kind, ok, detail)
 
     # ------------------------------------------------------------------ calls
@@ -881,8 +944,30 @@ class NumAnalysis:
             set_dest_int(dict(lo=max(a["lo"], bb["lo"]), hi=max(a["hi"], bb["hi"]),
                               rel=[(v, lo, None) for v, lo, hi in a["rel"] + bb["rel"] if lo is not None]))
             return
+        # by-value getters of local types: `fn x(self) -> T { self.x }` / `fn x(&self) -> T { self.x }`
+        if int_range(dty) is not None and len(args) == 1 and self.prog is not None:
+            gp = getter_projection(self.prog, self.fn.crate, callee)
+            if gp is not None:
+                pj = args[0].get("mv") or args[0].get("cp")
+                src = None
+                if pj is not None:
+                    apl = mk_place(pj)
+                    if gp[0]:  # by reference: resolve what the reference points to
+                        root = self.ref_root_deep(apl) if not apl[1] else None
+                        if root is not None:
+                            src = (root[0], root[1] + gp[1])
+                    else:
+                        src = (apl[0], apl[1] + gp[1])
+                if src is not None and place_var(src) is not None:
+                    v = place_var(src)
+                    r = int_range(dty)
+                    self.kill_tree(st, dpl[0], dpl[1])
+                    set_dest_int(dict(lo=max(st.z.lo(v), r[0]), hi=min(st.z.hi(v), r[1]), rel=[(v, 0, 0)]))
+                    return
         # everything else: destination unknown, memory possibly changed
         self.kill_tree(st, dpl[0], dpl[1])
+        if self.local_inv is not None and not dpl[1]:
+            self.local_inv(self, st, dpl[0], dty)
         if int_range(dty) is not None:
             rs = self.ret_summary(callee) if self.ret_summary is not None else None
             if rs is not None:
@@ -902,6 +987,8 @@ class NumAnalysis:
                 if t.startswith("&mut"):
                     pj = a.get("mv") or a.get("cp")
                     root = self.ref_root_deep(mk_place(pj)) if pj is not None else None
+                    if root is not None and self._havoc_by_modset(st, c, a, root):
+                        continue
                     if root is None or not any(e == ("deref",) for e in root[1]):
                         if root is None:
                             self.havoc_mem(st)
@@ -909,6 +996,44 @@ class NumAnalysis:
                         self.kill_tree(st, root[0], root[1])
                     else:
                         self.havoc_prefix(st, root)
+
+    def _havoc_by_modset(self, st, c, a, root):
+        """`&mut` argument of a *local* callee: forget only what the callee (transitively) writes below that parameter"""
+        if self.prog is None or c.get("via") not in ("direct", "trait_impl", "trait_default"):
+            return False
+        target = self.prog.get(self.fn.crate, c.get("callee") or "")
+        if target is None:
+            return False
+        if not hasattr(self.prog, "_numdom_modsets"):
+            from .modset import ModSets
+            self.prog._numdom_modsets = ModSets(self.prog)
+        tm = self.prog._numdom_modsets.of(target)
+        if tm is None:
+            return False
+        n = c["args"].index(a)
+        if n + 1 > target.argc:
+            return False
+        pname = str(target.locals[n + 1].get("name") or (n + 1))
+
+        def names(proj):
+            return tuple(e[1] for e in proj if e[0] == "f")
+        base = names(root[1])
+        chains = [base + tuple(m[1:]) for m in tm if m and str(m[0]) == pname]
+        l = root[0]
+
+        def pred(v):
+            if not (isinstance(v, tuple) and len(v) == 3 and v[0] in ("v", "len", "mlen") and v[1] == l):
+                return False
+            vn = names(v[2])
+            for ch in chains:
+                k = min(len(vn), len(ch))
+                if vn[:k] == ch[:k]:
+                    return True
+            return False
+        st.z.forget_many(pred)
+        for k in [k for k, (op, x, y) in st.bools.items() if pred(x) or pred(y)]:
+            del st.bools[k]
+        return True
 
     def havoc_mem_keep_len(self, st):
         # copying bytes does not change lengths; integer fields cannot be reached through a byte slice
